@@ -1,6 +1,7 @@
 package interp
 
 import (
+	"reflect"
 	"fmt"
 	"os"
 	"go/token"
@@ -501,7 +502,7 @@ func (e *Engine) callFunction(caller *frame, fn *ssa.Function, args []Value, env
 	if fi.pkgPath == "reflect" {
 		for _, a := range args {
 			if _, ok := a.(ReflectVal); ok {
-				e.unsupported("reflect method without intrinsic: " + fi.name)
+				e.unsupported("reflect method without intrinsic: " + fi.name + " called at " + e.where(caller))
 			}
 		}
 	}
@@ -694,12 +695,40 @@ func (e *Engine) globalAddr(g *ssa.Global) *Value {
 			}
 		}
 	}
-	if e.pkgInit[pkg] == 0 && !e.stubPkgs[path] && !noInitPkg(path) {
+	if e.pkgInit[pkg] == 0 && !e.stubPkgs[path] && (!noInitPkg(path) || e.forceInit[path]) {
 		e.pkgInit[pkg] = 1
 		e.initPackage(pkg)
 		e.pkgInit[pkg] = 2
+	} else if e.pkgInit[pkg] == 0 && !e.stubPkgs[path] {
+		// a package that is never initialised: a global its initialiser would have
+		// assigned is not zero in a real run, so it must not read as zero here
+		e.pkgInit[pkg] = 3
+		for _, gv := range initStoredGlobals(pkg) {
+			*e.globals[gv] = Opaque{Why: "global " + gv.Name() + " of package " + path + ", which the engine does not initialise"}
+		}
 	}
 	return e.globals[g]
+}
+
+// initStoredGlobals lists the globals of pkg that its init function assigns directly.
+func initStoredGlobals(pkg *ssa.Package) []*ssa.Global {
+	init := pkg.Func("init")
+	if init == nil {
+		return nil
+	}
+	var out []*ssa.Global
+	seen := map[*ssa.Global]bool{}
+	for _, b := range init.Blocks {
+		for _, in := range b.Instrs {
+			if st, ok := in.(*ssa.Store); ok {
+				if gv, ok := st.Addr.(*ssa.Global); ok && gv.Pkg == pkg && !seen[gv] {
+					seen[gv] = true
+					out = append(out, gv)
+				}
+			}
+		}
+	}
+	return out
 }
 
 // InitPackage forces the (lazy) initialisation of a package by path.
@@ -707,6 +736,16 @@ func (e *Engine) InitPackage(path string) {
 	pkg := e.prog.ImportedPackage(path)
 	if pkg == nil {
 		e.unsupported("InitPackage: no package " + path)
+	}
+	if e.forceInit == nil {
+		e.forceInit = map[string]bool{}
+	}
+	e.forceInit[path] = true
+	if e.pkgInit[pkg] == 3 {
+		e.pkgInit[pkg] = 0 // globals were marked uninitialised; now run the initialiser
+		for _, gv := range initStoredGlobals(pkg) {
+			*e.globals[gv] = e.zero(deref(gv.Type()))
+		}
 	}
 	for _, m := range pkg.Members {
 		if gv, ok := m.(*ssa.Global); ok {
@@ -741,16 +780,19 @@ func (e *Engine) initPackage(pkg *ssa.Package) {
 				switch p := r.(type) {
 				case targetPanic:
 					e.stubsUsed["incomplete-init:"+pkg.Pkg.Path()+": "+p.String()] = true
+					e.markUnreachedInits(pkg)
 				case pathEnd:
 					if p.kind != "unsupported" {
 						panic(r)
 					}
 					e.stubsUsed["incomplete-init:"+pkg.Pkg.Path()+": "+p.msg] = true
+					e.markUnreachedInits(pkg)
 				case string:
 					if strings.HasPrefix(p, "engine bug") || e.cfg.Trace {
 						panic(r)
 					}
 					e.stubsUsed["incomplete-init:"+pkg.Pkg.Path()+": "+p] = true
+					e.markUnreachedInits(pkg)
 				default:
 					panic(r)
 				}
@@ -758,6 +800,17 @@ func (e *Engine) initPackage(pkg *ssa.Package) {
 		}()
 		e.callFunction(nil, init, nil, nil)
 	}()
+}
+
+// markUnreachedInits: after an initialiser that could not be run to its end,
+// the globals it assigns that still hold their zero value are made opaque.
+func (e *Engine) markUnreachedInits(pkg *ssa.Package) {
+	for _, gv := range initStoredGlobals(pkg) {
+		cell := e.globals[gv]
+		if cell != nil && reflect.DeepEqual(*cell, e.zero(deref(gv.Type()))) {
+			*cell = Opaque{Why: "global " + gv.Name() + " of package " + pkg.Pkg.Path() + ": initialiser not reached (incomplete init)"}
+		}
+	}
 }
 
 func (e *Engine) protectedInitCall(fr *frame, instr *ssa.Call, fn Value, args []Value) (res Value) {
